@@ -451,3 +451,119 @@ def gen_ash_fn() -> str:
     out.append("(* parse_frame: the order in which the frame classes are tried *)\n"
                "Definition py_parse_order : list string := [" + "; ".join(f'"{c}"%string' for c in order) + "].\n")
     return "".join(out)
+
+
+# ==================================================================================================
+# EZSP frame headers (EZSPv4 / v5 / v8 ._ezsp_frame_tx / _ezsp_frame_rx)
+# ==================================================================================================
+def _header_tx(cls, tag: str) -> str:
+    fn = cls.__dict__.get("_ezsp_frame_tx")
+    if fn is None:
+        raise GenError(f"{cls.__name__}._ezsp_frame_tx", "not defined by this class")
+    node = _fn_ast(fn)
+    where = f"{cls.__name__}._ezsp_frame_tx (source)"
+    body = [s for s in node.body if not (isinstance(s, ast.Expr) and isinstance(s.value, ast.Constant))]
+    idvars, lists = set(), {}
+    tr = Tr(where, {}, {"seq": "N", "id": "N"})
+
+    def elem(e):
+        if ast.unparse(e) == "self._seq":
+            return "seq"
+        if isinstance(e, ast.BinOp) and isinstance(e.op, ast.BitAnd) and ast.unparse(e.left) == "self._seq" \
+                and isinstance(e.right, ast.Constant) and isinstance(e.right.value, int):
+            return f"(N.land seq {e.right.value})"
+        if isinstance(e, ast.Constant) and isinstance(e.value, int) and 0 <= e.value < 256:
+            return str(e.value)
+        if isinstance(e, ast.Name) and e.id in idvars:
+            return "id"
+        if isinstance(e, ast.Subscript) and isinstance(e.value, ast.Name) and e.value.id in lists.get("__cmd", ()) \
+                and isinstance(e.slice, ast.Constant) and e.slice.value == 0:
+            return "id"
+        tr.refuse(e, "header element")
+
+    def expr(e):
+        if isinstance(e, ast.Call) and isinstance(e.func, ast.Name) and e.func.id == "bytes" and len(e.args) == 1:
+            a = e.args[0]
+            if isinstance(a, ast.List):
+                return "[" + "; ".join(elem(x) for x in a.elts) + "]"
+            if isinstance(a, ast.Name) and a.id in lists:
+                return lists[a.id]
+            tr.refuse(e, "bytes(...) argument")
+        if isinstance(e, ast.BinOp) and isinstance(e.op, ast.Add):
+            return f"({expr(e.left)} ++ {expr(e.right)})"
+        if isinstance(e, ast.Call) and ast.unparse(e.func) == "t.uint16_t(cmd_id).serialize" and "cmd_id" in idvars and not e.args:
+            return "(le_bytes 2 id)"        # zigpy uint16_t: two bytes, little endian (lib/EzspTypes.v)
+        tr.refuse(e, "header expression")
+
+    for s in body[:-1]:
+        src = ast.unparse(s)
+        if src == "cmd_id = self.COMMANDS[name][0]":
+            idvars.add("cmd_id")
+        elif src == "c = self.COMMANDS[name]":
+            lists.setdefault("__cmd", set()).add("c")
+        elif isinstance(s, ast.Assign) and len(s.targets) == 1 and isinstance(s.targets[0], ast.Name) and isinstance(s.value, ast.List):
+            lists[s.targets[0].id] = "[" + "; ".join(elem(x) for x in s.value.elts) + "]"
+        else:
+            tr.refuse(s, "statement")
+    if not isinstance(body[-1], ast.Return):
+        tr.refuse(body[-1], "expected return")
+    return (f"(* from the source of {cls.__name__}._ezsp_frame_tx *)\n"
+            f"Definition py_{tag}_header_tx (seq id : N) : list N := {expr(body[-1].value)}.\n")
+
+
+def _header_rx(cls, tag: str) -> str:
+    fn = cls.__dict__.get("_ezsp_frame_rx")
+    if fn is None:
+        raise GenError(f"{cls.__name__}._ezsp_frame_rx", "not defined by this class")
+    node = _fn_ast(fn)
+    where = f"{cls.__name__}._ezsp_frame_rx (source)"
+    tr = Tr(where, {}, {})
+    body = [s for s in node.body if not (isinstance(s, ast.Expr) and isinstance(s.value, ast.Constant))]
+
+    def idx(e, var="data"):
+        """data[k] -> k ; data[k:] -> ('from', k)"""
+        if isinstance(e, ast.Subscript) and isinstance(e.value, ast.Name) and e.value.id == var:
+            sl = e.slice
+            if isinstance(sl, ast.Constant) and isinstance(sl.value, int) and sl.value >= 0:
+                return sl.value
+            if isinstance(sl, ast.Slice) and sl.upper is None and sl.step is None and isinstance(sl.lower, ast.Constant) \
+                    and isinstance(sl.lower.value, int) and sl.lower.value >= 0:
+                return ("from", sl.lower.value)
+        tr.refuse(e, "subscript form")
+
+    if len(body) == 1 and isinstance(body[0], ast.Return) and isinstance(body[0].value, ast.Tuple) and len(body[0].value.elts) == 3:
+        a, b, c = (idx(e) for e in body[0].value.elts)
+        if not (isinstance(a, int) and isinstance(b, int) and isinstance(c, tuple)):
+            tr.refuse(body[0], "return form")
+        need = max(a, b) + 1
+        return (f"(* from the source of {cls.__name__}._ezsp_frame_rx *)\n"
+                f"Definition py_{tag}_header_rx (data : list N) : option (N * N * list N) :=\n"
+                f"  if (List.length data <? {need})%nat then None   (* IndexError *)\n"
+                f"  else Some (nth {a} data 0, nth {b} data 0, skipn {c[1]} data).\n")
+    want = ["seq, data = (data[0], data[3:])", "frame_id, data = t.uint16_t.deserialize(data)", "return (seq, frame_id, data)"]
+    if len(body) == 3 and isinstance(body[0], ast.Assign) and isinstance(body[0].value, ast.Tuple) \
+            and _dump(ast.unparse(body[1])) == _dump(want[1]) and _dump(ast.unparse(body[2])) == _dump(want[2]) \
+            and ast.unparse(body[0].targets[0]) in ("seq, data", "(seq, data)") and len(body[0].value.elts) == 2:
+        a, c = (idx(e) for e in body[0].value.elts)
+        if not (isinstance(a, int) and isinstance(c, tuple)):
+            tr.refuse(body[0], "assignment form")
+        return (f"(* from the source of {cls.__name__}._ezsp_frame_rx; uint16_t.deserialize: two bytes, little endian, ValueError when short *)\n"
+                f"Definition py_{tag}_header_rx (data : list N) : option (N * N * list N) :=\n"
+                f"  if (List.length data <? {a + 1})%nat then None\n"
+                f"  else let seq := nth {a} data 0 in let data := skipn {c[1]} data in\n"
+                f"       if (List.length data <? 2)%nat then None\n"
+                f"       else Some (seq, le_value (firstn 2 data), skipn 2 data).\n")
+    raise GenError(where, "unsupported body:\n" + "\n".join(ast.unparse(s) for s in body))
+
+
+def gen_ezsp_fn() -> str:
+    import bellows.ezsp.v4 as v4
+    import bellows.ezsp.v5 as v5
+    import bellows.ezsp.v8 as v8
+    out = ["(* GENERATED by harness/pysrc.py from the SOURCE TEXT of bellows/ezsp/v{4,5,8}/__init__.py -- do not edit *)\n"
+           "From Coq Require Import NArith Arith List Bool.\nImport ListNotations.\nRequire Import BV.lib.EzspTypes BV.model.EzspCodec.\nOpen Scope N_scope.\n\n"]
+    for cls, tag in ((v4.EZSPv4, "v4"), (v5.EZSPv5, "v5"), (v8.EZSPv8, "v8")):
+        out.append(_header_tx(cls, tag))
+        out.append(_header_rx(cls, tag))
+        out.append("\n")
+    return "".join(out)
